@@ -63,7 +63,8 @@ def obligations(tier, seed):
                        "(day+1 04:00) - (day-1 20:00) = 32 h, 00:00 <= day h:m < day+1 04:00, (day+29 04:00) - (day h:m:s) = 29 d + 4 h - second of day > 0; "
                        "with the logged mktime fields asserted in the window obligations this gives begin < end, the 28 h / 32 h lengths, containment of the "
                        "converted PIL and the PTY window length for the tz (mktime) paths",
-                  encodes=[], defines={"M14_YLO": 1890, "M14_YHI": 2430}, bounds="years 1890..2430", timeout=300, **common))
+                  encodes=[], defines={"M14_YLO": 1890, "M14_YHI": 2430}, grid=[{"C14_LEMMA": 1}, {"C14_LEMMA": 2}, {"C14_LEMMA": 3}],
+                  bounds="years 1890..2430", timeout=300, **common))
     obs.append(Ob("m14_hint_consistency", func="h_m14_hint_consistency",
                   desc="the instant and the midnight registered by m14_hint_civil (what the harnesses build reference times from) equal the model's forward "
                        "function secs_from_civil of the same fields",
@@ -124,16 +125,15 @@ def obligations(tier, seed):
 
     obs.append(Ob("lto_to_time_epoch_edge", func="h_lto_to_time_epoch", tier="thorough",
                   desc="vbi_pil_lto_to_time with start in 1969..1970 (64-bit time_t: all results representable): conversion correct, negative results returned; "
-                       "KNOWN_PDC_EPOCH_EDGE excludes the region the code refuses with EOVERFLOW although representable "
-                       "(seconds_east < 0 and start + seconds_east < 0; seconds_east > 0 and result < 0) - remove the define to see the counterexample",
+                       "the region within the UTC offset of the epoch (seconds_east < 0 and start + seconds_east < 0; seconds_east > 0 and result < 0) was refused before the fix recorded in known_findings.json",
                   encodes=["vbi_pil_lto_to_time", "valid_pil_lto_to_time"] + ENC_COMMON,
-                  defines=_defs(1969, 1970, 57600, {"KNOWN_PDC_EPOCH_EDGE": 1}),
+                  defines=_defs(1969, 1970, 57600, {}),
                   bounds="PIL all 2^20; start every second of local years 1969..1970 (except start == -1); |seconds_east| <= 16 h",
                   reach=["end", "epoch_refused_region", "negative_result_ok"], timeout=900, **common))
     obs.append(Ob("pil_window_mktime_failure_exit", func="h_pil_window_mktime_fails", grid=[{"TZMODE": 0}, {"TZMODE": 2}],
                   desc="valid_pil_validity_window (static) when the 1st or 2nd mktime fails: returns FALSE after the first failure, TZ restored; "
-                       "the errno assertion (errno == mktime's EOVERFLOW) is disabled by KNOWN_PDC_SAVED_ERRNO_UNINIT: saved_errno is read uninitialised there",
+                       "errno == mktime's EOVERFLOW (saved_errno was read uninitialised there before the fix recorded in known_findings.json)",
                   encodes=["valid_pil_validity_window", "localtime_tz"] + ENC_COMMON,
-                  defines=_defs(Q[0], Q[1], Q[2], {"KNOWN_PDC_SAVED_ERRNO_UNINIT": 1}),
+                  defines=_defs(Q[0], Q[1], Q[2], {}),
                   bounds="valid PIL, years %d..%d, mktime failure forced on call 1 or 2" % (Q[0], Q[1]), timeout=300, **common))
     return obs
